@@ -143,6 +143,12 @@ func Load(repoDir, pattern string) (*Loaded, error) {
 	ld.byFn = map[*ssa.Function]*FuncContract{}
 	for _, name := range cs.Order {
 		fc := cs.Funcs[name]
+		if fc.IsInit {
+			if sf := spkg.Func("init"); sf != nil {
+				ld.byFn[sf] = fc
+			}
+			continue
+		}
 		fn := lookupFunc(tpkg, name)
 		if fn == nil {
 			continue
